@@ -953,6 +953,23 @@ def _seq_method(interp, s, name, ba=None):
         return INative("bytes.hex", hex_)
     if name == "fromhex":
         return INative("bytes.fromhex", lambda h: bytes.fromhex(h) if not ops.is_sym(h) else _oor("fromhex of symbolic str"))
+    if name in ("ljust", "rjust"):
+        def just(width, fill=None):
+            if conc(width, fill):
+                return getattr(s, name)(width) if fill is None else getattr(s, name)(width, fill)
+            if fill is None:
+                fill = " " if kind == "str" else b" "
+            if ops.is_sym(fill) or len(fill) != 1:
+                raise OutOfReach(f"{kind}.{name} with a symbolic fill")
+            code = ord(fill) if kind == "str" else fill[0]
+            r = to_rope(s)
+            lt = rope_len_term(r)
+            c = ctx()
+            if not c.branch(simp(T(lt) < T(width))):
+                return s
+            pad = mk_rope(kind, [BR(code, simp(T(width) - T(lt)))])
+            return rope_concat(r, pad) if name == "ljust" else rope_concat(pad, r)
+        return INative(kind + "." + name, just)
     if name in ("strip", "lstrip", "rstrip", "title", "capitalize", "format", "zfill", "ljust", "rjust", "center",
                 "isalpha", "isalnum", "isupper", "islower", "isspace", "count", "index", "rfind", "partition",
                 "rpartition", "splitlines", "swapcase", "casefold", "isascii", "isidentifier", "expandtabs",
@@ -1262,6 +1279,8 @@ def _len(interp, v):
         nt = v.cls.ns.get("_fields_nt") if isinstance(v, IObj) else None
         if nt is not None:
             return len(nt)
+        if isinstance(v, IObj) and v.cls is NBYTES:
+            return v.attrs["nbytes"]           # len(memoryview of a BytesIO) == nbytes
         f = interp.find_dunder(v, "__len__")
         if f is not None:
             return interp.call(f, [], {})
